@@ -46,7 +46,6 @@ func (x *Exec) setErrText(n *node, e IfaceV, s SliceV) {
 		k string
 		t *Term
 	}{{"ErrText.arr", s.Arr}, {"ErrText.off", s.Off}, {"ErrText.len", s.Len}} {
-		h := x.heap(st, c.k, Arr(IntS, c.t.S))
-		x.setHeap(st, c.k, x.VC.Def("H."+c.k, Store(h, e.Val, c.t)), e.Val)
+		x.objSet(st, c.k, e.Val, c.t)
 	}
 }
